@@ -131,12 +131,13 @@ func (wr *writerRun) do(r *run, op *OpSpec) *opRec {
 	after := func() {}
 	var echo, echoOf *Rec
 	switch op.Kind {
-	case "put", "putnew", "push", "putdel":
+	case "put", "putnew", "push", "putdel", "pushdel", "pushexp":
 		wr.counter++
 		token := fmt.Sprintf("w%d-%d", wr.spec.ID, wr.counter)
 		nr := newRec(r.w.db, key, token, op.Score, op.Tag)
 		ns := &keyState{token: token, score: op.Score, tag: op.Tag, secret: op.PreSecret, crown: op.PreCrown}
-		if op.PreSecret || op.PreCrown || op.Kind == "push" || op.Kind == "putdel" {
+		isPush := op.Kind == "push" || op.Kind == "pushdel" || op.Kind == "pushexp"
+		if op.PreSecret || op.PreCrown || isPush || op.Kind == "putdel" {
 			nr.UpdateMeta()
 			if op.PreSecret {
 				nr.Meta().MakeSecret()
@@ -145,7 +146,7 @@ func (wr *writerRun) do(r *run, op *OpSpec) *opRec {
 				nr.Meta().MakeCrownJewel()
 			}
 		}
-		if op.Kind != "push" {
+		if !isPush {
 			ns.secret = ns.secret || wr.spec.Iface.Secret
 			ns.crown = ns.crown || wr.spec.Iface.Crown
 		}
@@ -166,7 +167,16 @@ func (wr *writerRun) do(r *run, op *OpSpec) *opRec {
 			// is a fresh object, so this delete has its own token
 			nr.Meta().Delete()
 			fn = func() error { return wr.iface.Put(nr) }
-		case "push":
+		case "push", "pushdel", "pushexp":
+			// an injected database also pushes the removal of a value (a record whose
+			// meta is marked deleted) and values that have expired meanwhile; like a
+			// delete through the controller they are updates subscribers must see
+			if op.Kind == "pushdel" {
+				nr.Meta().Delete()
+			}
+			if op.Kind == "pushexp" {
+				nr.Meta().SetAbsoluteExpiry(time.Now().Unix() - 100000)
+			}
 			// the provider of an injected database updates its value and pushes it
 			fn = func() error {
 				r.w.store(nr)
